@@ -525,7 +525,7 @@ Definition view_key (r : option Kernels3.hdkeychain_ExtendedKey * N) : list Z :=
   end.
 Definition child_of (s : list N) (i : N) :=
   match key_from_string s with
-  | Ok (Some k, 0) => Kernels3.ExtendedKey_Child unit N N hash_t tt i_bytes ser_c parse_pk h160 sbm pk_of h_new h_write h_sum 0 i_set curve_n i_cmp i_sign i_add i_mod (fun p => p) (fun p => p) (fun _ a _ _ _ => (a, a)) k i
+  | Ok (Some k, 0) => Kernels3.ExtendedKey_Child unit N N hash_t tt i_bytes ser_c parse_pk (fun _ => false) h160 sbm pk_of h_new h_write h_sum 0 i_set curve_n i_cmp i_sign i_add i_mod (fun p => p) (fun p => p) (fun _ a _ _ _ => (a, a)) k i
   | _ => Panic 99
   end.
 Definition view_child (r : option Kernels3.hdkeychain_ExtendedKey * N * Kernels3.hdkeychain_ExtendedKey) : list Z := view_key (fst r).
